@@ -95,6 +95,7 @@ func c08Transcripts() []c08Transcript {
 		t := mk("v3-one-run", 3)
 		a := ex("a", "echo", map[string]any{"payload": "some payload"})
 		a.HoldSigCh = true
+		a.Signals = []schema.Input{{RunID: "a", ID: "record", InputData: map[string]any{"v": int64(1)}}}
 		t.groups = [][]rig.ExecSpec{{a}}
 		addDone(t, a)
 	}
@@ -407,7 +408,12 @@ func c08Replay(t *c08Transcript, f c08Fault, s2cMode rig.Mode, chunkSeed uint64)
 						}
 						var toStep chan schema.Input
 						if o.Spec.HoldSigCh {
-							toStep = make(chan schema.Input) // stays open: the caller is not obliged to close it
+							// stays open: the caller is not obliged to close it; signals the caller has queued go out
+							// through it (their write may be the one that fails)
+							toStep = make(chan schema.Input, len(o.Spec.Signals)+1)
+							for _, sg := range o.Spec.Signals {
+								toStep <- sg
+							}
 						}
 						o.Result = cli.Execute(schema.Input{RunID: o.Spec.RunID, ID: o.Spec.StepID, InputData: o.Spec.Input}, toStep, from)
 						// a consumer ranging over the emitted signals is a caller, too: the channel is closed when the run
